@@ -173,6 +173,10 @@ func (pl *LowNodeLoad) processOneNodePool(ctx context.Context, nodePool *desched
 	logUtilizationCriteria(nodePool.Name, "Criteria for nodes under low thresholds and above high thresholds", lowThresholds, highThresholds,
 		prodLowThresholds, prodHighThresholds, len(lowNodes), len(sourceNodes), len(prodLowNodes), len(prodHighNodes), len(bothLowNodes), len(nodes))
 
+	// a round in which a node is not above its high thresholds breaks its run of consecutive abnormal rounds
+	resetNodesExcept(nodeUsages, sourceNodes, pl.nodeAnomalyDetectors)
+	resetNodesExcept(nodeUsages, prodHighNodes, pl.prodAnomalyDetectors)
+
 	if len(sourceNodes) == 0 && len(prodHighNodes) == 0 {
 		klog.V(4).InfoS("All nodes are under target utilization, nothing to do here", "nodePool", nodePool.Name)
 		return nil
@@ -270,6 +274,22 @@ func resetNodesAsNormal(lowNodes []NodeInfo, nodeAnomalyDetectors *gocache.Cache
 		if obj, ok := nodeAnomalyDetectors.Get(v.node.Name); ok {
 			anomalyDetector := obj.(anomaly.Detector)
 			anomalyDetector.Reset()
+		}
+	}
+}
+
+// resetNodesExcept resets the anomaly detectors of all nodes of the pool that are not among abnormalNodes.
+func resetNodesExcept(nodeUsages map[string]*NodeUsage, abnormalNodes []NodeInfo, nodeAnomalyDetectors *gocache.Cache) {
+	abnormal := sets.NewString()
+	for _, v := range abnormalNodes {
+		abnormal.Insert(v.node.Name)
+	}
+	for name := range nodeUsages {
+		if abnormal.Has(name) {
+			continue
+		}
+		if obj, ok := nodeAnomalyDetectors.Get(name); ok {
+			obj.(anomaly.Detector).Reset()
 		}
 	}
 }
